@@ -128,7 +128,7 @@ func c01Gen(rng *verifsim.RNG, idx int, tier string) *Plan {
 	for i := 0; i < na; i++ {
 		at := int64(rng.Dur(0, horizon)) + jitter(rng)
 		iw := n.Ifaces[rng.Intn(len(n.Ifaces))]
-		switch rng.Pick(8, 2, 2, 2, 1, 1) {
+		switch rng.Pick(8, 2, 2, 2, 1, 1, 2) {
 		case 0:
 			src := hostAddr(rng.Intn(5))
 			if rng.Bool(0.2) {
@@ -151,6 +151,10 @@ func c01Gen(rng *verifsim.RNG, idx int, tier string) *Plan {
 			p.Actions = append(p.Actions, Action{At: at, Kind: "mac", If: iw.Name, MAC: mac})
 		case 5:
 			p.Actions = append(p.Actions, Action{At: at, Kind: "link", If: iw.Name, Oper: "down"})
+		case 6:
+			// a neighbouring router says what we say (our latest multicast RA,
+			// from another address): checking it must leave our own RAs alone
+			p.Actions = append(p.Actions, Action{At: at, Kind: "echo", If: iw.Name, Src: "fe80::ec:0"})
 		}
 	}
 	// The OS lists in any order and may repeat itself: not a fault.
